@@ -47,6 +47,7 @@ struct knode {
 	long in_since;		/* harness time it became sure-in */
 	int winners, del_calls;
 	int owner_tid;
+	int tainted;		/* targeted by a removal call while its own add / replace was still in flight */
 };
 
 static struct cds_lfht *ht;
@@ -262,10 +263,15 @@ static long lastzero[MAXKEY];		/* last time the key was possibly absent */
 static int ar_inflight[MAXKEY];		/* add_replace calls in progress on the key (their target is unknown) */
 static long ar_last[MAXKEY];
 static long touched_at[MAXNODE];	/* first removal call that targeted the node */
+static int taint[MAXKEY];		/* in-flight adds / replaces on the key whose NEW node is already targeted by a removal:
+					   the node they replaced is still counted in sure[] but the key may be gone */
 
 static void key_unsure(unsigned long k) { lastzero[k] = htime++; }
+static int key_sure_since(unsigned long k, long call) { return sure[k] > 0 && lastzero[k] < call && !taint[k]; }
+static void node_taint(struct knode *n) { if (!n->tainted) { n->tainted = 1; taint[n->key]++; } }
 static void node_in(struct knode *n)
 {
+	if (n->tainted) { n->tainted = 0; taint[n->key]--; }
 	if (n->state != 1 || touched_at[n->id]) {	/* already targeted by a removal: stay conservative */
 		key_unsure(n->key);
 		if (n->state == 1) n->state = 3;
@@ -273,7 +279,8 @@ static void node_in(struct knode *n)
 	}
 	n->state = 2;
 	n->in_since = htime++;
-	sure[n->key]++;
+	if (sure[n->key]++ == 0)
+		lastzero[n->key] = n->in_since;	/* until now the key was possibly absent */
 }
 static void node_target(struct knode *n)	/* a removal call that names n starts */
 {
@@ -281,14 +288,16 @@ static void node_target(struct knode *n)	/* a removal call that names n starts *
 	if (n->state == 2) {
 		n->state = 3;
 		if (--sure[n->key] == 0) key_unsure(n->key);
-	} else if (n->state == 1)
+	} else if (n->state == 1) {
 		key_unsure(n->key);
+		node_taint(n);
+	}
 }
 static void node_won(struct knode *n, const char *how)
 {
 	if (!touched_at[n->id]) touched_at[n->id] = htime++;
 	if (n->state == 2) { n->state = 3; if (--sure[n->key] == 0) key_unsure(n->key); }
-	else if (n->state == 1) key_unsure(n->key);
+	else if (n->state == 1) { key_unsure(n->key); node_taint(n); }
 	if (++n->winners > 1)
 		vrt_fail("owner", "node%d obtained by two callers (second: T%d via %s, first: T%d)", n->id, vrt_self(), how, n->owner_tid);
 	n->owner_tid = vrt_self();
@@ -369,7 +378,7 @@ static struct knode *op_lookup(unsigned long k)
 	r = knode_of(it.node);
 	if (r)
 		check_found("lookup", k, r, call);
-	else if (sure[k] > 0 && lastzero[k] < call)
+	else if (key_sure_since(k, call))
 		vrt_fail("resident", "lookup(key %lu) found nothing although the key was continuously present during the call", k);
 	h_end(h, r ? r->id : -1);
 	return r;
@@ -399,7 +408,7 @@ static void op_add_unique(unsigned long k)
 	lib_leave();
 	vrt_log("RET add_unique %s", NM(r));
 	if (r == n) {
-		if (sure[k] > 0 && lastzero[k] < call)
+		if (key_sure_since(k, call))
 			vrt_fail("dupkey", "add_unique(key %lu) inserted node%d although the key was continuously present during the call", k, n->id);
 		node_in(n);
 	} else {
@@ -422,7 +431,7 @@ static void op_add_replace(unsigned long k)
 	vrt_log("RET add_replace %s", NM(r));
 	ar_inflight[k]--;
 	ar_last[k] = htime++;
-	if (!r && sure[k] > 0 && lastzero[k] < call)
+	if (!r && key_sure_since(k, call))
 		vrt_fail("dupkey", "add_replace(key %lu) inserted node%d without replacing although the key was continuously present", k, n->id);
 	node_in(n);
 	if (r) {
@@ -616,10 +625,60 @@ static void one_op(int idx, int solo)
 	(void)idx;
 }
 
+/*
+ * Directed scenarios: --script "1:L3+z+D,u2;2:d3,g" gives worker 1, 2 … a fixed program instead of random operations.
+ * Operations (',' separated, each in its own read-side section; '+' chains primitives inside ONE section):
+ *   a<k> add   u<k> add_unique   p<k> add_replace   L<k>|l<k> lookup   R<k> replace the iterator's node by a new node of key k
+ *   D del the iterator's node   r<k> = L<k>+R<k>   d<k> = L<k>+D   w<k> lookup+next_duplicate walk   t first/next traversal
+ *   z logical sleep (lets the other threads run; inside a section it keeps the section open)
+ *   g (alone) synchronize_rcu + free the nodes this thread owns
+ */
+static char *scripts[MAXT + 2];
+static char *pre_script, *rtargets;
+
+static void prim(const char *p)
+{
+	unsigned long k = p[1] ? strtoul(p + 1, NULL, 10) % MAXKEY : 0;
+	switch (p[0]) {
+	case 'a': op_add(k); break;
+	case 'u': op_add_unique(k); break;
+	case 'p': op_add_replace(k); break;
+	case 'l': case 'L': op_lookup(k); break;
+	case 'R': if (it.node) op_replace(k); break;
+	case 'D': if (it.node) op_del(); break;
+	case 'r': if (op_lookup(k)) op_replace(k); break;
+	case 'd': if (op_lookup(k)) op_del(); break;
+	case 'w': op_dupwalk(k); break;
+	case 't': op_traverse(); break;
+	case 'z': vrt_sleep(100000); break;
+	default: fprintf(stderr, "harness: bad script primitive '%s'\n", p); _exit(9);
+	}
+}
+static void run_script(const char *sc)
+{
+	char buf[512], *op, *sv1;
+	snprintf(buf, sizeof(buf), "%s", sc);
+	for (op = strtok_r(buf, ",", &sv1); op; op = strtok_r(NULL, ",", &sv1)) {
+		char *pr, *sv2;
+		if (op[0] == 'g') { reclaim_mine(); continue; }
+		wflavor.read_lock();
+		it.node = it.next = NULL;
+		for (pr = strtok_r(op, "+", &sv2); pr; pr = strtok_r(NULL, "+", &sv2))
+			prim(pr);
+		wflavor.read_unlock();
+	}
+}
+
 static void *worker(void *arg)
 {
 	int idx = (int)(long)arg, i;
 	wflavor.register_thread();
+	if (idx <= MAXT && scripts[idx]) {
+		run_script(scripts[idx]);
+		reclaim_mine();
+		wflavor.unregister_thread();
+		return NULL;
+	}
 	for (i = 0; i < nops; i++) {
 		int solo = solo_mode && idx == solo_tid_idx;
 		if (solo) vrt_sleep(1 + vrt_rand() % 60);
@@ -639,6 +698,12 @@ static void *resizer(void *arg)
 	for (i = 0; i < nresize; i++) {
 		unsigned long target = 1UL << (vrt_rand() % (maxo + 1));
 		if (big) target = i % 2 ? (unsigned long)max_size / 2 : (unsigned long)max_size;
+		if (rtargets) {		/* --rtargets 8,1,4 */
+			char *e;
+			target = strtoul(rtargets, &e, 10);
+			rtargets = *e ? e + 1 : e;
+			if (!target) break;
+		}
 		vrt_sleep(vrt_rand() % 80);
 		vrt_log("CALL resize %lu", target);
 		cds_lfht_resize(ht, target);
@@ -774,6 +839,16 @@ int main(int argc, char **argv)
 		else if (!strcmp(argv[i], "--mm") && i + 1 < argc) mm_kind = atoi(argv[++i]);
 		else if (!strcmp(argv[i], "--resizes") && i + 1 < argc) nresize = atoi(argv[++i]);
 		else if (!strcmp(argv[i], "--prefill") && i + 1 < argc) prefill = atoi(argv[++i]);
+		else if (!strcmp(argv[i], "--script") && i + 1 < argc) {
+			char *sv, *tk;
+			for (tk = strtok_r(argv[++i], ";", &sv); tk; tk = strtok_r(NULL, ";", &sv)) {
+				int w = atoi(tk);
+				char *c = strchr(tk, ':');
+				if (w >= 1 && w <= MAXT && c) scripts[w] = c + 1;
+			}
+		}
+		else if (!strcmp(argv[i], "--pre") && i + 1 < argc) pre_script = argv[++i];
+		else if (!strcmp(argv[i], "--rtargets") && i + 1 < argc) { rtargets = argv[++i]; nresize = 64; }
 		else if (!strcmp(argv[i], "--small")) small_hist = 1;
 		else if (!strcmp(argv[i], "--solo")) solo_mode = 1;
 		else if (!strcmp(argv[i], "--big")) big = 1;
@@ -802,18 +877,21 @@ int main(int argc, char **argv)
 	if (ht->split_count)
 		vrt_name(ht->split_count, (split_count_mask + 1) * sizeof(struct ht_items_count), "split");
 	vrt_log("NEW %lu", ht->size);
+	if (pre_script) { prefill = 0; run_script(pre_script); }
 	for (i = 0; i < prefill; i++) {
 		wflavor.read_lock();
 		if (i % 2) op_add_unique(vrt_rand() % nkeys); else op_add_unique(nkeys - 1 - i % nkeys);
 		wflavor.read_unlock();
 	}
 	solo_tid_idx = solo_mode ? nthreads : 0;
+	vrt_raw("#@ spawn %lu", vrt_steps());		/* sweep window of the check: global steps between these two marks */
 	for (i = 1; i <= nthreads; i++)
 		tids[nt++] = vrt_spawn("worker", worker, (void *)(long)i);
 	if (nresize)
 		tids[nt++] = vrt_spawn("resizer", resizer, NULL);
 	for (i = 0; i < nt; i++)
 		vrt_join(tids[i]);
+	vrt_raw("#@ joined %lu", vrt_steps());
 	final_checks();
 	vrt_log("CALL destroy");
 	ret = cds_lfht_destroy(ht, NULL);
